@@ -128,6 +128,15 @@ WAVE7 = {
 for k, v in WAVE7.items():
     EXTRA[k] = EXTRA.get(k, "") + v
 
+# eighth wave (DESIGN.md section 6i)
+WAVE8 = {
+ "C11": " Since wave 8: the filter-carrying command also travels inside command lists (1 case in 4); values with runs of blanks and tabs.",
+ "C13": " Since wave 8: part empty_list_on_ended_connection (the empty typed Vec issued after the connection ended in every way, exhaustive over 160 combinations, must still yield an empty result).",
+ "C19": " Since wave 8: every frame is received twice on one connection and lookups (find / get) are also made with keys that are prefix / suffix / empty slices of the twin frame's interned field names; get/find with a key whose as_ref() panics on its n-th call (contained) must leave the frame as it was.",
+}
+for k, v in WAVE8.items():
+    EXTRA[k] = EXTRA.get(k, "") + v
+
 BUILT = sys.argv[1].split(",") if len(sys.argv) > 1 else []
 
 checks = []
